@@ -1,7 +1,10 @@
 (* Channel "prank": PageRank (C18).  The implementation's f64 vectors are converted to
    exact (dyadic) rationals; all comparisons are made in Q with the extracted functions. *)
 open Model
+open Model.PageRankM
 type string = Stdlib.String.t
+let max = Stdlib.max
+let min = Stdlib.min
 open Conv
 
 let rec pos_pow2 (k : int) : positive = if k <= 0 then XH else XO (pos_pow2 (k - 1))
